@@ -208,9 +208,22 @@ def run(chk, fb, tier):
     variants = fb.enum_variants(enum) if enum in fb.adts else []
     table = {}
     fallback = None
-    for m, rows in hirq.match_tables(body):
-        if not any(l and l[0].startswith("path:" + enum) for l, _ in rows):
-            continue
+    # the dispatch is in the writer itself or in a crate function it calls (e.g. a lookup method of the enum)
+    dispatch_bodies = [body]
+    seen_defs = set()
+    frontier = [body]
+    for _ in range(2):
+        nxt = []
+        for bb in frontier:
+            for c in hirq.called_defs(bb):
+                if c in fb.hir and c not in seen_defs:
+                    seen_defs.add(c)
+                    nxt.append(fb.hir[c]["body"])
+        dispatch_bodies += nxt
+        frontier = nxt
+    tables_found = [(m, rows) for bb in dispatch_bodies for m, rows in hirq.match_tables(bb) if any(l and l[0].startswith("path:" + enum) for l, _ in rows)]
+    with_statics = [(m, rows) for m, rows in tables_found if any(x.get("k") == "path" and x.get("def", "").startswith("encoding_rs::") for _, arm in rows for x in hirq.walk(arm["body"]))]
+    for m, rows in (with_statics or tables_found)[:1]:
         for lits, arm in rows:
             statics = [x.get("def") for x in hirq.walk(arm["body"]) if x.get("k") == "path" and x.get("def", "").startswith("encoding_rs::")]
             if lits is None:
@@ -224,11 +237,17 @@ def run(chk, fb, tier):
             # UTF-8 is the identity: it is not mapped to an encoding_rs static, the fallback arm names none, and the
             # text's own bytes are what is written on that path (String::into_bytes / as_bytes somewhere in the function)
             ident = any(c.endswith(("String::into_bytes", "str>::as_bytes", "String::as_bytes")) for c in hirq.called_defs(body))
-            ok = v not in table and fallback is not None and not fallback and ident
+            ok = ((v not in table and fallback is not None and not fallback) or table.get(v) == []) and ident
             chk.ob(re_, "encoding(%s)" % v, ok, where=fb.loc(d), detail="UTF-8: no encoding_rs static selected (fallback arm: %s), the string's own bytes are written: %s" % (fallback, ident))
         else:
             got = table.get(v)
             ok = got == ["encoding_rs::" + want]
             chk.ob(re_, "encoding(%s)" % v, ok, where=fb.loc(d), detail="variant %s -> %s (expected encoding_rs::%s)" % (v, got, want))
+    from props import C01
+
+    C01.rule_number_exact(chk, fb, "C20.f")
+    import symmetry
+
+    symmetry.rule_parsed_as_stored(chk, fb, "C20.g", only_types=("WorkbookView",), floor=1)
     chk.assume("encoding_rs statics implement the WHATWG encodings of their names; get_highest_column_and_row returns (column, row) (decided under C10.e)")
     chk.note("not decided: that a CSV parser recovers the grid for all values (parser round trip)")
